@@ -735,6 +735,16 @@ func (ev *c10Eval) callExpr(call *ast.CallExpr, env c10Env, depth int) c10Val {
 			return ev.unknownOf(ftv.Type, "conversion of a non-integer")
 		}
 		if ev.isString(ftv.Type) && (a.K == c10VStr || a.K == c10VText) {
+			a.Bytes = false // string(b) copies the bytes
+			return a
+		}
+		if ev.isString(ftv.Type) {
+			if ps, ok := c10BytesOf(a); ok {
+				return c10MkText(ps)
+			}
+		}
+		if c10IsByteSlice(ftv.Type) && (a.K == c10VStr || a.K == c10VText) {
+			a.Bytes = true // []byte(s) copies the text
 			return a
 		}
 		switch ftv.Type.Underlying().(type) {
@@ -778,6 +788,11 @@ func (ev *c10Eval) callExpr(call *ast.CallExpr, env c10Env, depth int) c10Val {
 		var args []c10Val
 		for _, a := range call.Args {
 			args = append(args, ev.expr(a, env, depth))
+		}
+		if c10IsByteSlice(tv.Type) {
+			if v, ok := ev.appendBytes(args, call.Ellipsis.IsValid()); ok {
+				return v
+			}
 		}
 		if len(args) > 0 && (args[0].K == c10VSlice || args[0].K == c10VNil) && !call.Ellipsis.IsValid() {
 			return c10SliceVal(append(append([]c10Val{}, args[0].Args...), args[1:]...))
@@ -840,6 +855,10 @@ func (ev *c10Eval) callExpr(call *ast.CallExpr, env c10Env, depth int) c10Val {
 		case "ParseInt", "ParseUint", "Atoi":
 			if len(args) >= 1 {
 				return ev.parseNum(call, fn, args)
+			}
+		case "AppendInt", "AppendUint":
+			if v, ok := ev.strconvAppend(fn.Name(), args); ok {
+				return v
 			}
 		case "Itoa":
 			if len(args) == 1 && args[0].K == c10VInt && args[0].Tag == "" {
